@@ -87,14 +87,31 @@ _PT_REPL = ['vf_vec_Point_push_back/contract_vf_vec_Point_push_back', 'vf_vec_Po
 
 LK = 'contracts/lookups.c'
 
-BR = 'contracts/bounded_readers.c'
+BW = 'contracts/bounded_walker.c'
+BH = 'contracts/bounded_header_read.c'
+BD = 'contracts/bounded_data_read.c'
 
 UNITS = [
+    U('B_Data_read', BD, 'h_B_Data_read', [], ['C01', 'C02', 'C03', 'C13', 'C16'], mode='bmc', unwind=6, timeout=1200, level='B',
+      unwindset={'vf_string_ctor_lit.0': 20},
+      stubs={'c3d__readInt': 'stubd_readInt', 'c3d__readFloat': 'stubd_readFloat', 'Parameters__group__str': 'stubd_group',
+             'Group__parameter__str': 'stubd_parameter', 'vf_vec_string_assign': 'stubd_vec_string_assign',
+             'vf_vec_Frame_resize': 'stubd_vec_Frame_resize', 'Frame__ctor': 'stubd_Frame__ctor', 'Points__ctor__sz': 'stubd_Points__ctor__sz',
+             'Analogs__ctor__sz': 'stubd_Analogs__ctor__sz', 'SubFrame__ctor__sz': 'stubd_SubFrame__ctor__sz',
+             'Point__ctor__str': 'stubd_Point__ctor__str', 'Channel__ctor__str': 'stubd_Channel__ctor__str',
+             'Point__name__str': 'stubd_Point__name__str', 'Channel__name__str': 'stubd_Channel__name__str',
+             'vf_sstream_ctor': 'stubd_sstream_ctor', 'vf_sstream_put_lit': 'stubd_sstream_put_lit', 'vf_sstream_put_ulong': 'stubd_sstream_put_ulong',
+             'vf_sstream_str': 'stubd_sstream_str', 'Points__point__Point_sz': 'stubd_Points__point', 'Frame__add__Points': 'stubd_Frame__add__Points',
+             'SubFrame__channel__Channel_sz': 'stubd_SubFrame__channel', 'Analogs__subframe__SubFrame_sz': 'stubd_Analogs__subframe',
+             'Frame__add__Analogs': 'stubd_Frame__add__Analogs'},
+      object_bits=13, bound='frame reader Data::Data(c3d&): at most 2 frames x 2 points x 2 sub-frames x 2 channels, 0..2 labels; callees are recording stubs',
+      props={'memsafe': ['C13', 'C16']},
+      assumes=['bounded model checking, not a proof; the header is consistent (as updateHeader leaves it)']),
     U('Point_write', WR, 'h_Point_write', ['Point__write/contract_Point__write'], ['C01', 'C03', 'C12', 'C13', 'C14', 'C10', 'C18'],
       unwind=6, timeout=300),
     U('Channel_write', WR, 'h_Channel_write', ['Channel__write/contract_Channel__write'], ['C01', 'C03', 'C12', 'C13', 'C14', 'C10', 'C18'],
       unwind=6, timeout=300),
-    U('Header_read', BR, 'h_Header_read', [], ['C02', 'C04', 'C05', 'C12', 'C13', 'C16', 'C17', 'C19'], mode='bmc', unwind=20, timeout=900,
+    U('Header_read', BH, 'h_Header_read', [], ['C02', 'C04', 'C05', 'C12', 'C13', 'C16', 'C17', 'C19'], mode='bmc', unwind=20, timeout=900,
       stubs={'c3d__readUint': 'stubv_readUint', 'c3d__readInt': 'stubv_readInt', 'c3d__readFloat': 'stubv_readFloat',
              'c3d__readString': 'stubv_readString', 'vf_string_assign': 'stubv_string_assign'},
       level='PB', object_bits=10,
@@ -103,7 +120,7 @@ UNITS = [
       props={'memsafe': ['C13', 'C16'], 'ub': ['C19', 'C13']},
       assumes=['plain symbolic execution of the real Header::read; the read helpers are value stubs = the executable form of their '
                'proved contracts (units readUint / readInt / readFloat / readString)']),
-    U('B_Parameters_read', BR, 'h_B_Parameters_read', [], ['C02', 'C13', 'C16'], mode='bmc',
+    U('B_Parameters_read', BW, 'h_B_Parameters_read', [], ['C02', 'C13', 'C16'], mode='bmc',
       stubs={'c3d__readUint': 'stub_readUint', 'c3d__readInt': 'stub_readInt', 'Group__read': 'stub_Group__read',
              'Group__parameter__c3d_int': 'stub_Group__parameter_file', 'Group__ctor': 'stub_Group__ctor',
              'vf_vec_Group_push_back': 'stub_vec_Group_push_back'},
